@@ -119,3 +119,20 @@ def live_literals():
     m = re.search(r"int\(\s*(\d+)\s*\*\s*sigma_space\s*\+\s*(\d+)\s*\)", src)
     out["window"] = (int(m.group(1)), int(m.group(2))) if m else None
     return out
+
+
+def bilateral_reuse(disp, flags, sigma_first, sigma_space, sigma_color, invalid_mask):
+    """one BilateralFilter object used for two `filter_bilateral` calls with different sigma_space (the second one is the
+    one under test) against a fresh object: returns (reused result, fresh result)"""
+    from pandora import filter as flt
+
+    warnings.filterwarnings("ignore", category=RuntimeWarning)
+    data = np.array(disp, dtype=np.float32)
+    data[(np.array(flags) & invalid_mask) != 0] = np.nan
+    shape = data.shape
+    cfg = {"filter_method": "bilateral", "sigma_space": float(sigma_first), "sigma_color": float(sigma_color)}
+    used = flt.AbstractFilter(cfg=dict(cfg), image_shape=shape, step=1)
+    used.filter_bilateral(data.copy(), float(sigma_first), float(sigma_color))
+    reused = used.filter_bilateral(data.copy(), float(sigma_space), float(sigma_color))
+    fresh = flt.AbstractFilter(cfg=dict(cfg, sigma_space=float(sigma_space)), image_shape=shape, step=1)
+    return np.array(reused), np.array(fresh.filter_bilateral(data.copy(), float(sigma_space), float(sigma_color)))
